@@ -135,7 +135,12 @@ impl ReProgram {
                 let mut mp = min_position;
                 for o in &sequence.operations {
                     if matches!(o, Operation::Bol(_)) {
-                        fp = Some(0);
+                        // in multi-line mode "^" also holds after any newline
+                        fp = if self.flags.is_multi_line() {
+                            None
+                        } else {
+                            Some(0)
+                        };
                     }
                     self.add_precondition(o.clone(), fp, mp);
                     if let (Some(some_fp), Some(match_length)) = (fp, o.get_match_length()) {
